@@ -15,7 +15,9 @@ def build_clientsim(ctx, release=True):
 
 def build_cdriver(ctx, sanitize=True, shared=False):
     """Compile harness/cdriver/ffi_driver.c against clockbound.h + libclockbound from the repo tree."""
-    libdir = ctx.build_repo(["clock-bound-ffi"], release=True)
+    # the library as a user who installs only the C library gets it: built on its own (cargo features
+    # are not unified with the daemon's), in a target directory of its own
+    libdir = ctx.build_repo(["clock-bound-ffi"], release=True, target="repo-ffi-alone-rel")
     out = os.path.join(ctx.bdir, "ffi_driver_%s%s" % ("san" if sanitize else "plain", "_so" if shared else ""))
     src = os.path.join(ctx.ws, "cdriver", "ffi_driver.c")
     ctx.ensure_ws()
@@ -32,6 +34,62 @@ def build_cdriver(ctx, sanitize=True, shared=False):
         print(p.stdout[-3000:])
         raise Inconclusive("C driver does not compile against clockbound.h / libclockbound")
     return out
+
+
+def build_mt_driver(ctx):
+    """harness/cdriver/mt_driver.c (threads, fork) against the static library, no sanitizer."""
+    libdir = ctx.build_repo(["clock-bound-ffi"], release=True, target="repo-ffi-alone-rel")
+    out = os.path.join(ctx.bdir, "mt_driver")
+    ctx.ensure_ws()
+    cmd = ["clang", "-O1", "-g", "-pthread", "-I" + os.path.join(ctx.repo, "clock-bound-ffi", "include"), os.path.join(ctx.ws, "cdriver", "mt_driver.c"),
+           os.path.join(libdir, "libclockbound.a"), "-lpthread", "-ldl", "-lm", "-o", out]
+    p = subprocess.run(cmd, stdout=subprocess.PIPE, stderr=subprocess.STDOUT, text=True)
+    if p.returncode != 0:
+        print(p.stdout[-3000:])
+        raise Inconclusive("multi-threaded C driver does not compile against clockbound.h / libclockbound")
+    return out
+
+
+MT_SCENARIOS = {"C03": ["handover"], "C02": ["threads"], "C14": ["threads"], "C16": ["threads"], "C18": ["fork"], "C17": ["nullerr", "handover"]}
+
+
+def run_mt(ctx, prop, seconds=2.0):
+    """Scenarios of the multi-threaded C client relevant to `prop`. Returns (violations, stats)."""
+    import shutil
+    import signal as _signal
+    binary = build_mt_driver(ctx)
+    viol, stats = [], {}
+    for sc in MT_SCENARIOS.get(prop, []):
+        d = "/dev/shm/cbverif-mt-%d-%s" % (os.getpid(), sc)
+        os.makedirs(d, exist_ok=True)
+        try:
+            cmd = [binary, sc, d] + ([str(seconds)] if sc == "threads" else [])
+            try:
+                p = subprocess.run(cmd, stdout=subprocess.PIPE, stderr=subprocess.PIPE, text=True, timeout=300)
+            except subprocess.TimeoutExpired:
+                stats[sc] = "did not finish (inconclusive)"
+                continue
+            for ln in p.stdout.splitlines():
+                if ln.startswith("VIOLATION-MT "):
+                    _, pr, sig, text = ln.split(" ", 3)
+                    if pr == prop:
+                        viol.append({"sig": "c-client-" + sig, "detail": "[multi-threaded C client, scenario %s] %s" % (sc, text), "replay": ""})
+                elif ln.startswith("MT "):
+                    stats[sc] = ln[3:]
+            if p.returncode < 0:
+                try:
+                    name = _signal.Signals(-p.returncode).name
+                except ValueError:
+                    name = str(-p.returncode)
+                if -p.returncode in (4, 6, 7, 8, 11):
+                    viol.append({"sig": "c-client-killed-by-" + name, "detail": "[multi-threaded C client, scenario %s] the process was killed by %s: %s" % (sc, name, (p.stdout + p.stderr)[-300:]), "replay": ""})
+                else:
+                    stats[sc] = "killed by %s (inconclusive)" % name
+            elif p.returncode != 0:
+                stats[sc] = "exit %d: %s" % (p.returncode, p.stderr[-200:])
+        finally:
+            shutil.rmtree(d, ignore_errors=True)
+    return viol, stats
 
 
 def sweep(ctx, binary, prop, count, seed_salt=0, timeout=1800):
